@@ -4,6 +4,7 @@ import QmiModel.Props.C20
 #print axioms QmiModel.Adbasic.conflicting_definitions_rejected
 #print axioms QmiModel.Adbasic.violation_rejected_with_position
 #print axioms QmiModel.Adbasic.analyze_outcomes
+#print axioms QmiModel.Adbasic.index_too_long_escapes
 #print axioms QmiModel.Adbasic.ranges_partition
 #print axioms QmiModel.Adbasic.batch_set_eq_single
 #print axioms QmiModel.Adbasic.batch_get_eq_single
